@@ -55,10 +55,13 @@ func (w *vW) h(name string) nfstypes.Nfs_fh3 {
 
 func vSattr(name string) nfstypes.Sattr3 {
 	var s nfstypes.Sattr3
-	s.Mode.Set_it = verifrt.Bool(name + "_mode_set")
-	s.Mode.Mode = nfstypes.Mode3(verifrt.U32(name + "_mode"))
-	s.Uid.Set_it = verifrt.Bool(name + "_uid_set")
-	s.Gid.Set_it = verifrt.Bool(name + "_gid_set")
+	if verifrt.Param("plainattrs", 0) == 0 {
+		// mode/uid/gid are only logged by the server; the quick tier leaves them unset
+		s.Mode.Set_it = verifrt.Bool(name + "_mode_set")
+		s.Mode.Mode = nfstypes.Mode3(verifrt.U32(name + "_mode"))
+		s.Uid.Set_it = verifrt.Bool(name + "_uid_set")
+		s.Gid.Set_it = verifrt.Bool(name + "_gid_set")
+	}
 	s.Size.Set_it = verifrt.Bool(name + "_size_set")
 	s.Size.Size = nfstypes.Size3(verifrt.U64(name + "_size"))
 	s.Atime.Set_it = nfstypes.Time_how(verifrt.U32(name + "_atime_how"))
